@@ -13,8 +13,11 @@ for n in NS:
     mod = 'EPV.Props.C01.Cog%d' % n
     T = lambda s: 'EPV.C01.cog%d_%s' % (n, s)
     m = ['Cog%d' % n]
-    _o.append(obl('C01.cog%d.mass' % n, mod, [T('leaves'), T('mass')], m, o_c01_cog.cog(n, 'mass')))
-    _o.append(obl('C01.cog%d.momentum' % n, mod, [T('leaves'), T('momentum')], m, o_c01_cog.cog(n, 'momentum')))
+    # leaf-level theorem (every ok leaf, pinned by cog<n>_leaves) + the same for the returned (tree-level) fields
+    _o.append(obl('C01.cog%d.mass' % n, mod, [T('leaves'), T('mass'), T('tree'), T('mass_tree')], m,
+                  o_c01_cog.cog(n, 'mass')))
+    _o.append(obl('C01.cog%d.momentum' % n, mod, [T('leaves'), T('momentum'), T('tree'), T('momentum_tree')], m,
+                  o_c01_cog.cog(n, 'momentum')))
     if n in HYDRO:
         th = [T('leaves'), T('energy_hydro'), T('energy')]
     elif n == 10:
@@ -24,7 +27,7 @@ for n in NS:
               T('energy')]
     else:
         th = [T('leaves'), T('energy_hydro'), T('flux_div'), T('energy')]
-    _o.append(obl('C01.cog%d.energy' % n, mod, th, m, o_c01_cog.cog(n, 'energy')))
+    _o.append(obl('C01.cog%d.energy' % n, mod, th + [T('tree'), T('energy_tree')], m, o_c01_cog.cog(n, 'energy')))
 
 PROP = dict(
     groups=['cog'],
